@@ -6,6 +6,7 @@
   in an abstract state that describes the final writer state.
 -/
 import QV.Proofs.WriterExtents
+import QV.Proofs.WriterCfg
 
 namespace QV.Writer
 open QV QV.Wire QV.Spec QV.ServerSafety
@@ -311,9 +312,20 @@ theorem absOk_content {P : CMode → Prop} (ss : Session) (op : Op) (a a' : Mess
       | (simp only [Except.ok.injEq] at habs; subst habs; exact ⟨hC.qs, hC.an, hC.ns, hC.ar, hC.modes⟩)
       | cases habs
 
+/-- the remaining argument types of the Rust API that `Op.Typed` does not list: the EDNS payload size
+    and the TSIG `fudge` / original ID / error are `u16` -/
+def ApiBounds : Op → Prop
+  | .setEdns p => p < 65536
+  | .setTsig _ rr => rr.fudge < 65536 ∧ rr.originalId < 65536 ∧ rr.error < 65536
+  | _ => True
+
 def NonEmptySet : Op → Prop
   | .addRrset _ _ _ _ _ _ rds _ => rds ≠ []
   | _ => True
+
+/-- the arguments of a call are values of the types of the Rust API: `Name`s, 16-bit types / classes /
+    IDs / payload sizes, 4-bit opcodes and RCODEs, RDATA of at most 65535 octets, non-empty `RdataSet`s -/
+def ApiTyped (op : Op) : Prop := op.Typed ∧ ApiBounds op ∧ NonEmptySet op
 
 theorem toSpecOp_ne (op : Op) (h1 : op ≠ .clearRrs) (h2 : op ≠ .getters) :
     Driver.toSpecOp op ≠ .getters ∧ Driver.toSpecOp op ≠ .clearRrs := by
@@ -375,20 +387,20 @@ theorem walk_segment {sR : State} (hcurR : sR.cursor ≤ 65535) (d : Message.Dec
       (d.extents.map (·.2)).take (qs.length + rs.length) = qs.map qEnd ++ rs.map rEnd) :
     ∀ (ops : List Op) (ss : Session) (b : Body) (mb : MBody) (a : Message.AState),
       I ss.w → CLay (fun _ => True) ss.w b mb → AbsNum ss.w a → IdxOK a → a.itemIdx = bodyLen b →
-      a.hdr = specHeader ss.w.octets → a.hdr.z = 0 → AbsContent a b mb → (∀ op ∈ ops, op.Typed) →
+      a.hdr = specHeader ss.w.octets → a.hdr.z = 0 → AbsContent a b mb → AbsCfg ss.w a → (∀ op ∈ ops, op.Typed) →
       Respects ss ops → (∀ op ∈ ops, op ≠ .clearRrs ∧ op ≠ .getters ∧ NonEmptySet op) → (run ss ops).1.w = sR →
       ∃ aF, AbsNum sR aF ∧ aF.hdr = specHeader sR.octets ∧ aF.hdr.z = 0 ∧
-        AbsContent aF (bodyRun b ops (run ss ops).2) (mrun ss mb ops) ∧
+        AbsContent aF (bodyRun b ops (run ss ops).2) (mrun ss mb ops) ∧ AbsCfg sR aF ∧
         Message.walk false a (ops.map Driver.toSpecOp) ((run ss ops).2.map Driver.statusStr ++ ["ok"]) [m] (some d) mac' =
           Message.checkSegment false aF d m.size mac' := by
   intro ops
   induction ops with
   | nil =>
-    intro ss b mb a hI hL hA hidx hlen hh hz hC _ _ _ hfin
-    refine ⟨a, by rw [← hfin]; exact hA, by rw [← hfin]; exact hh, hz, hC, ?_⟩
+    intro ss b mb a hI hL hA hidx hlen hh hz hC hG _ _ _ hfin
+    refine ⟨a, by rw [← hfin]; exact hA, by rw [← hfin]; exact hh, hz, hC, by rw [← hfin]; exact hG, ?_⟩
     simp [run, Message.walk]
   | cons op ops ih =>
-    intro ss b mb a hI hL hA hidx hlen hh hz hC ht hr hno hfin
+    intro ss b mb a hI hL hA hidx hlen hh hz hC hG ht hr hno hfin
     obtain ⟨hop, hrest⟩ := hr
     have ht' : ∀ op' ∈ ops, op'.Typed := fun op' h => ht op' (List.mem_cons_of_mem _ h)
     have hhs := hdr_step ss op hI.inv (ht op List.mem_cons_self)
@@ -417,10 +429,11 @@ theorem walk_segment {sR : State} (hcurR : sR.cursor ≤ 65535) (d : Message.Dec
             have := hhs (by simp)
             simp only [reduceCtorEq, if_false] at this
             rw [this]; exact hh
-          obtain ⟨aF, hAF, hF1, hF2, hF3, hw⟩ := ih ss' b mb a hI' hL' hA' hidx hlen hh' hz hC ht' hrest hno'
+          have hG' : AbsCfg ss'.w a := absCfg_same hG (hsame e rfl)
+          obtain ⟨aF, hAF, hF1, hF2, hF3, hF4, hw⟩ := ih ss' b mb a hI' hL' hA' hidx hlen hh' hz hC hG' ht' hrest hno'
             (by rw [hrun]; exact hfin)
           rw [hrun] at hw hF3
-          refine ⟨aF, hAF, hF1, hF2, by simpa [bodyRun] using hF3, ?_⟩
+          refine ⟨aF, hAF, hF1, hF2, by simpa [bodyRun] using hF3, hF4, ?_⟩
           simp only [List.map_cons, List.cons_append]
           rw [walk_default _ _ _ _ _ _ _ _ hs1 hs2, statusStr_err_ne_ok]
           simp only [Bool.false_eq_true, if_false, Bool.false_or, hjust e rfl, if_true]
@@ -501,10 +514,13 @@ theorem walk_segment {sR : State} (hcurR : sR.cursor ≤ 65535) (d : Message.Dec
             rw [this, hah, hh]
           have hz' : a'.hdr.z = 0 := by rw [hah, hdrStep_z]; exact hz
           have hC' := absOk_content ss op a a' d b mb hL hA hC hnc hok habs
-          obtain ⟨aF, hAF, hF1, hF2, hF3, hw⟩ := ih ss' (bodyStep b op) _ a' hI' hL' hA' hidx' hlen' hh' hz' hC' ht'
-            hrest hno' (by rw [hrun]; exact hfin)
+          have hG' : AbsCfg ss'.w a' := by
+            have := cfg_step ss op a a' d hI hG hok habs
+            rw [hw'] at this; exact this
+          obtain ⟨aF, hAF, hF1, hF2, hF3, hF4, hw⟩ := ih ss' (bodyStep b op) _ a' hI' hL' hA' hidx' hlen' hh' hz' hC' hG'
+            ht' hrest hno' (by rw [hrun]; exact hfin)
           rw [hrun] at hw hF3
-          refine ⟨aF, hAF, hF1, hF2, by simpa [bodyRun] using hF3, ?_⟩
+          refine ⟨aF, hAF, hF1, hF2, by simpa [bodyRun] using hF3, hF4, ?_⟩
           simp only [List.map_cons, List.cons_append]
           rw [walk_default _ _ _ _ _ _ _ _ hs1 hs2]
           have hokstr : (Driver.statusStr (.ok u) == "ok") = true := by cases u; decide
@@ -528,6 +544,7 @@ theorem walk_from_new (macFn : Tsig → List UInt8 → List UInt8) (hmac : MacLe
       aF.hdr = d.msg.header ∧ aF.hdr.z = 0 ∧
       AbsContent aF (bodyRun {} ops (run { w := { s0 with mode := mode } } ops).2)
         (mrun { w := { s0 with mode := mode } } {} ops) ∧
+      AbsCfg (run { w := { s0 with mode := mode } } ops).1.w aF ∧
       Message.walk false
           { mode := Driver.toSpecMode mode, buflen := buf.size, limit := min limit buf.size }
           (ops.map Driver.toSpecOp)
@@ -566,13 +583,24 @@ theorem walk_from_new (macFn : Tsig → List UInt8 → List UInt8) (hmac : MacLe
     rw [hd] at hd'
     cases hd'
     exact h qs rs hq hr'
-  obtain ⟨aF, hAF, hF1, hF2, hF3, hw⟩ := walk_segment hcurR d m mac' hpre ops { w := { s0 with mode := mode } } {} {} _
+  have hG0 : AbsCfg { s0 with mode := mode }
+      { mode := Driver.toSpecMode mode, buflen := buf.size, limit := min limit buf.size } := by
+    have g := clay_new (P := fun _ => True) buf limit s0 hnew mode trivial
+    have he : s0.edns = none ∧ s0.tsig = none := by
+      unfold Writer.new at hnew
+      dsimp only at hnew
+      split at hnew
+      · cases hnew
+      · have hs := Out.ok.inj hnew
+        constructor <;> (rw [← hs])
+    exact ⟨by show none = Option.map _ s0.edns; rw [he.1]; rfl, by show none = Option.map _ s0.tsig; rw [he.2]; rfl⟩
+  obtain ⟨aF, hAF, hF1, hF2, hF3, hF4, hw⟩ := walk_segment hcurR d m mac' hpre ops { w := { s0 with mode := mode } } {} {} _
     hI0 hL0 hA0 rfl rfl (by show _ = specHeader s0.octets; rw [hdr_new buf limit s0 hnew]) rfl
-    ⟨rfl, rfl, rfl, rfl, rfl⟩ ht hr hno hsR
+    ⟨rfl, rfl, rfl, rfl, rfl⟩ hG0 ht hr hno hsR
   obtain ⟨d2, _, _, _, _, hd2, hh2, _⟩ := finish_refines macFn sR B MB hIR hLR hst m mac hf hsz
   rw [hd] at hd2
   cases hd2
   rw [hB, hMB] at hF3
-  exact ⟨m, mac, d, aF, hf, hd, hAF, by rw [hF1, hh2], hF2, hF3, hw⟩
+  exact ⟨m, mac, d, aF, hf, hd, hAF, by rw [hF1, hh2], hF2, hF3, hF4, hw⟩
 
 end QV.Writer
